@@ -121,22 +121,24 @@ func readerDocs(thorough bool) map[string][]byte {
 	}
 	wide.WriteString("}")
 	d := map[string][]byte{
-		"num":        []byte(`1.5`),
-		"str":        []byte(`"a` + "\\" + `nb"`),
-		"null":       []byte(`null`),
-		"emptyarr":   []byte(`[]`),
-		"emptyobj":   []byte(`{}`),
-		"arrs":       []byte(`[[1,2],[3]]`),
-		"objs":       []byte(`{"a":{"b":1},"` + U("0061") + `":2}`),
-		"strs":       []byte(`["` + "\\" + `n","x"]`),
-		"wide":       []byte(wide.String()),
-		"mixed":      []byte(`[{"a":[1,{"b":"x"}]},[{}],"s"]`),
-		"eof":        []byte(`[1,`),
-		"objerr":     []byte(`{"a":}`),
-		"nestederr":  []byte(`{"a":[{"b":[1,2,x]}]}`),
-		"overflow":   []byte(`[1,1e999]`),
-		"depth10001": []byte(strings.Repeat("[", 10001) + strings.Repeat("]", 10001)),
-		"depth30":    []byte(strings.Repeat(`[{"a":`, 15) + `"deep"` + strings.Repeat("}]", 15)),
+		"num":         []byte(`1.5`),
+		"str":         []byte(`"a` + "\\" + `nb"`),
+		"null":        []byte(`null`),
+		"emptyarr":    []byte(`[]`),
+		"emptyobj":    []byte(`{}`),
+		"arrs":        []byte(`[[1,2],[3]]`),
+		"objs":        []byte(`{"a":{"b":1},"` + U("0061") + `":2}`),
+		"strs":        []byte(`["` + "\\" + `n","x"]`),
+		"wide":        []byte(wide.String()),
+		"mixed":       []byte(`[{"a":[1,{"b":"x"}]},[{}],"s"]`),
+		"eof":         []byte(`[1,`),
+		"objerr":      []byte(`{"a":}`),
+		"nestederr":   []byte(`{"a":[{"b":[1,2,x]}]}`),
+		"overflow":    []byte(`[1,1e999]`),
+		"depth10001":  []byte(strings.Repeat("[", 10001) + strings.Repeat("]", 10001)),
+		"depth30":     []byte(strings.Repeat(`[{"a":`, 15) + `"deep"` + strings.Repeat("}]", 15)),
+		"depth10000":  []byte(strings.Repeat("[", 10000) + strings.Repeat("]", 10000)),
+		"odepth10000": []byte(strings.Repeat(`{"a":`, 10000) + "1" + strings.Repeat("}", 10000)),
 	}
 	if thorough {
 		d["escapedkeys"] = []byte(`{"` + "\\" + `ta":{"` + "\\" + `tb":{"` + "\\" + `tc":1}}}`)
